@@ -8,7 +8,11 @@
 //!  - the compile outcome (ok / err + error kinds from roto::verif::report_kinds),
 //!  - for an accepted script: the value every constant getter and every
 //!    function of the graph returns (getters are read twice, before and after
-//!    the function calls).
+//!    the function calls), then the results of the case's Call-phase programme
+//!    `prog` in order: typed getters (`getv`) and functions that copy a constant,
+//!    modify the copy and read the constant again (`mut`) return a rendering of
+//!    the values as a String ("copy|constant", leaves separated by commas) which
+//!    is passed on unparsed; `get` / `call` return an i32 as above.
 //!
 //! `mark(k, s)` returns `(k + 3 * s) % modulus`: it is the environment of
 //! the script (the TLA+ spec ConstOrder models exactly this function as `MarkVal`);
@@ -48,10 +52,16 @@ fn tree_of(case: &Value) -> FileTree {
 
 fn base_runtime(log: &Log, modulus: i32) -> Runtime<roto::NoCtx> {
     let l = log.clone();
+    let lu = log.clone();
     Runtime::from_lib(library! {
         let mark = move |k: i32, s: i32| -> i32 {
             l.lock().unwrap().push((k, s));
             (k + 3 * s) % modulus
+        };
+        /// the same for a constant whose type has no value to carry (`()`, a record of units): the
+        /// initialiser still runs exactly once, `marku` logs it and returns nothing
+        let marku = move |k: i32, s: i32| {
+            lu.lock().unwrap().push((k, s));
         };
         /// identity: lets a script mention an item as the argument of a host call
         let keep = |x: i32| -> i32 { x };
@@ -84,7 +94,7 @@ fn marks_json(v: &[(i32, i32)]) -> Value {
 }
 
 macro_rules! run_case {
-    ($case:expr, $prog:expr, $rt:expr, $log:expr, |$f:ident, $a:ident| $call1:expr, |$g:ident| $call0:expr) => {{
+    ($case:expr, $prog:expr, $rt:expr, $log:expr, |$f:ident, $a:ident| $call1:expr, |$g:ident| $call0:expr, |$h:ident| $calls:expr) => {{
         let case: &Value = $case;
         let prog: &Progress = $prog;
         let log: &Log = $log;
@@ -139,6 +149,42 @@ macro_rules! run_case {
                         }
                     }
                 }
+                // the Call-phase programme of the case (ConstOrder actions GetV / Mut / Get / Call), in order.
+                // Functions that return a rendering of a typed value return a String which is passed on as it is.
+                let nplan = 2 * case["gets"].as_array().unwrap().len() + case["calls"].as_array().unwrap().len();
+                if let Some(ops) = case["prog"].as_array() {
+                    for (n, op) in ops.iter().enumerate() {
+                        prog.step(2 + (nplan + n) as i64);
+                        let name = op["name"].as_str().unwrap();
+                        let what = op["what"].as_str().unwrap();
+                        match op["ret"].as_str().unwrap() {
+                            "str" => match pkg.get_function::<fn() -> RotoString>(name) {
+                                Ok($h) => {
+                                    let v: RotoString = $calls;
+                                    obs.push(json!({"what": what, "id": op["id"], "p": n, "str": &*v}));
+                                }
+                                Err(e) => missing.push(format!("{name}: {e}")),
+                            },
+                            "i32" => match pkg.get_function::<fn() -> i32>(name) {
+                                Ok($g) => {
+                                    let v: i32 = $call0;
+                                    obs.push(json!({"what": what, "id": op["id"], "p": n, "v": v}));
+                                }
+                                Err(e) => missing.push(format!("{name}: {e}")),
+                            },
+                            _ => {
+                                let $a = op["arg"].as_i64().unwrap() as i32;
+                                match pkg.get_function::<fn(i32) -> i32>(name) {
+                                    Ok($f) => {
+                                        let v: i32 = $call1;
+                                        obs.push(json!({"what": what, "id": op["id"], "p": n, "v": v}));
+                                    }
+                                    Err(e) => missing.push(format!("{name}: {e}")),
+                                }
+                            }
+                        }
+                    }
+                }
                 let after: Vec<(i32, i32)> = std::mem::take(&mut *log.lock().unwrap());
                 json!({
                     "marks": marks_json(&during),
@@ -166,9 +212,9 @@ fn main() {
                 ctxw: case["ctxv"].as_i64().unwrap() as i32,
                 ctxs: RotoString::from(case["ctxv"].as_i64().unwrap().to_string()),
             };
-            run_case!(case, prog, rt, &log, |f, a| f.call(&mut ctx, a), |g| g.call(&mut ctx))
+            run_case!(case, prog, rt, &log, |f, a| f.call(&mut ctx, a), |g| g.call(&mut ctx), |h| h.call(&mut ctx))
         } else {
-            run_case!(case, prog, rt, &log, |f, a| f.call(a), |g| g.call())
+            run_case!(case, prog, rt, &log, |f, a| f.call(a), |g| g.call(), |h| h.call())
         }
     });
 }
